@@ -89,7 +89,7 @@ Ltac subtac Hw :=
   cbn [tasks set_pump set_dq set_pump_done];
   repeat first [ rewrite sub_finish_w | rewrite sub_finish | rewrite sub_set_pc | rewrite sub_finish_close
                | rewrite sub_enter_close | rewrite sub_feed | rewrite sub_wake | rewrite sub_push ];
-  cbn [tasks set_task set_tasks set_table set_buffering set_failing set_flags set_queue set_lock set_wire set_shut set_closed set_pump set_dq set_pump_done];
+  cbn [tasks set_task set_tasks set_table set_rtable set_buffering set_failing set_flags set_queue set_lock set_wire set_shut set_closed set_pump set_dq set_pump_done];
   rewrite ?upd_other by exact Hw; try reflexivity.
 
 Lemma step_other_sub s t s' w :
@@ -112,9 +112,10 @@ Proof.
     + rewrite sub_set_pc. unfold release. rewrite sub_release_ws. reflexivity.
     + rewrite sub_finish_w. unfold release. rewrite sub_release_ws. reflexivity.
   - inversion H; subst; subtac Hw.
-  - cbv zeta in H. inversion H; subst. rewrite sub_set_pc. cbn [tasks set_table set_tasks]. rewrite sub_drain. apply sub_wake.
+  - cbv zeta in H. inversion H; subst. rewrite sub_set_pc. cbn [tasks set_table set_tasks set_rtable drain_state]. rewrite sub_drain. apply sub_wake.
   - destruct (wr s); inversion H; subst; subtac Hw.
   - discriminate.
+  - inversion H; subst; subtac Hw.
   - inversion H; subst; subtac Hw.
   - inversion H; subst; subtac Hw.
   - discriminate.
@@ -247,7 +248,7 @@ Proof.
     rewrite (pcof_of_pcu _ _ _ _ (pcu_set_pc (set_closed s) t _)). exact O.
   - (* PC1 *)
     cbv zeta in H. inversion H; subst. rewrite (pcof_of_pcu _ _ _ _ (pcu_set_pc _ t _)), sub_set_pc.
-    cbn [tasks set_table set_tasks lin set_pc set_task]. rewrite sub_drain, sub_wake.
+    cbn [tasks set_table set_tasks set_rtable drain_state lin set_pc set_task]. rewrite sub_drain, sub_wake.
     destruct (data_wake s) as (_ & _ & L & _). rewrite L. exact O.
   - (* PC2 *)
     destruct (wr s); inversion H; subst.
@@ -255,11 +256,16 @@ Proof.
     + rewrite pcof_finish_close_same, sub_finish_close.
       destruct (data_finish_close (set_shut s) t a k) as (_ & _ & L & _). rewrite L. exact O.
   - discriminate.
-  - (* PO0 registers *)
+  - (* PO0: first insert *)
     inversion H; subst. cbv zeta.
     match goal with |- context [pcof (set_task ?Y t ?v) t] => destruct (pcof_sub_set_task Y t v) as [P S] end.
     rewrite P, S.
-    cbn [t_pc with_pc in_hand t_sub with_sid lin set_task set_tasks set_table]. rewrite app_nil_r in *. exact O.
+    cbn [t_pc with_pc in_hand t_sub with_sid lin set_task set_tasks set_table set_rtable]. rewrite app_nil_r in *. exact O.
+  - (* PO0b: second insert *)
+    inversion H; subst.
+    match goal with |- context [pcof (set_task ?Y t ?v) t] => destruct (pcof_sub_set_task Y t v) as [P S] end.
+    rewrite P, S.
+    cbn [t_pc with_pc in_hand t_sub lin set_task set_tasks set_table]. rewrite app_nil_r in *. exact O.
   - (* PO1 *)
     inversion H; subst.
     destruct (pcof_sub_set_task s t (with_pc (with_sub (tasks s t) (syn_frame sid)) (PW0 WkOpen (syn_frame sid)))) as [P S].
